@@ -5,6 +5,7 @@ ddt_gauss_kin,ddt_hist_kin,mag,td_mag,td_mag_magnitude}_likelihood.py, double_so
 base_lens_likelihood.py (dispatch), cosmo_likelihood.py (`normalized` override).
 Model: lean/HierArc/Model/Gauss.lean (run at Float through Drv/C06.lean); theorems: Props/C06.lean.
 """
+import copy
 import math
 
 import numpy as np
@@ -396,17 +397,80 @@ def _classes():
             "TDMag": TDMagLikelihood, "TDMagMagnitude": TDMagMagnitudeLikelihood, "DSPL": DSPLikelihood}
 
 
-def arr_ctor(k):
-    """constructor kwargs with lists turned into numpy arrays (as the repo's tests pass them)"""
+def arr_ctor(k, case=None):
+    """constructor kwargs with lists turned into numpy arrays (as the repo's tests pass them); the keys named in
+    case["int_keys"] hold whole numbers and are handed over INTEGER-typed (ndarray of dtype int, or nested lists of
+    Python ints): the same numbers, so the same density"""
     out = {}
+    int_keys = (case or {}).get("int_keys") or []
     for key, v in k.items():
-        out[key] = np.array(v, dtype=float) if isinstance(v, list) else v
+        if key in int_keys and isinstance(v, list):
+            a = np.array(v, dtype=float)
+            assert np.all(a == np.rint(a))
+            a = a.astype(int)
+            out[key] = a.tolist() if (case or {}).get("int_as") == "list" else a
+        else:
+            out[key] = np.array(v, dtype=float) if isinstance(v, list) else v
     return out
+
+
+INT_KEYS = {"IFUKinCov": ["sigma_v_measurement", "error_cov_measurement"],
+            "DdtGaussKin": ["sigma_v_measurement", "error_cov_measurement"],
+            "DdtHistKin": ["sigma_v_measurement", "error_cov_measurement"],
+            "Mag": ["cov_magnification_model", "magnification_model"],
+            "TDMag": ["cov_model", "time_delay_measured", "magnification_model"],
+            "TDMagMagnitude": ["cov_model", "time_delay_measured"]}
+
+
+def int_variant(case, rng, nprng):
+    """whole-number inputs handed over integer-typed (a model covariance given as np.eye(n, dtype=int) or a list of
+    Python ints, velocity dispersions / time delays quoted as integers): a legitimate way of writing the same numbers"""
+    c = copy.deepcopy(case)
+    keys = [k for k in INT_KEYS.get(c["type"], []) if k in c["ctor"]]
+    if not keys:
+        return None
+    chosen = [k for k in keys if rng.random() < 0.6] or [rng.choice(keys)]
+    for key in chosen:
+        a = np.array(c["ctor"][key], dtype=float)
+        if a.ndim == 2 and key in ("cov_model", "cov_magnification_model"):
+            n = a.shape[0]
+            hows = ["eye", "diag", "bbt", "zero"]
+            rng.shuffle(hows)
+            for how in hows + ["zero"]:
+                if how == "zero":
+                    m = np.zeros((n, n))
+                elif how == "eye":
+                    m = np.eye(n)
+                elif how == "diag":
+                    m = np.diag(nprng.integers(0, 4, n).astype(float))
+                else:
+                    b = nprng.integers(-1, 2, (n, rng.choice([1, 2]))).astype(float)
+                    m = b @ b.T
+                trial = copy.deepcopy(c)
+                trial["ctor"][key] = m.tolist()
+                w = np.linalg.eigvalsh(matrix_pieces(trial)[2])
+                if how == "zero" or (w[0] > 0 and w[-1] / w[0] < 1e7):   # keep the combined covariance well conditioned
+                    break
+            c["meta"]["model_cov"] = "int_" + how
+        elif a.ndim == 2:
+            m = np.rint(a)
+            m = (m + m.T) / 2
+            m = np.rint(m)
+            if np.min(np.linalg.eigvalsh(m)) < 0.5:
+                m = np.diag(np.maximum(1.0, np.rint(np.diag(a))))
+        else:
+            m = np.rint(a)
+            m[m == 0] = 1.0
+        c["ctor"][key] = m.tolist()
+    c["int_keys"] = chosen
+    c["int_as"] = rng.choice(["ndarray", "ndarray", "list"])
+    c["stream"] = "int_typed"
+    return c
 
 
 def build_direct(case, normalized):
     t = case["type"]
-    k = arr_ctor(case["ctor"])
+    k = arr_ctor(case["ctor"], case)
     cls = _classes()[t]
     if t in FLAG_TYPES:
         k["normalized"] = normalized
@@ -416,7 +480,7 @@ def build_direct(case, normalized):
 def build_base(case, normalized):
     from hierarc.Likelihood.LensLikelihood.base_lens_likelihood import LensLikelihoodBase
     t = case["type"]
-    k = arr_ctor(case["ctor"])
+    k = arr_ctor(case["ctor"], case)
     z_lens = k.pop("z_lens", 0.5)
     z_source = k.pop("z_source", 1.5)
     return LensLikelihoodBase(z_lens, z_source, likelihood_type=t, normalized=normalized, **k)
@@ -852,7 +916,7 @@ def run_cosmo(cc):
     from hierarc.Likelihood.LensLikelihood.kin_likelihood import KinLikelihood
     from hierarc.Likelihood.LensLikelihood.base_lens_likelihood import LensLikelihoodBase
     lens = cc["lens"]
-    kwargs_lens = dict(arr_ctor(lens["ctor"]), likelihood_type=lens["type"], num_distribution_draws=1)
+    kwargs_lens = dict(arr_ctor(lens["ctor"], lens), likelihood_type=lens["type"], num_distribution_draws=1)
     bounds = dict(kwargs_lower_cosmo={"h0": 10, "om": 0.05}, kwargs_upper_cosmo={"h0": 200, "om": 1})
     model = {}
     args = cc["args"][:2]
@@ -1038,6 +1102,10 @@ def run(ctx, res):
     for t in MATRIX_TYPES:
         for _ in range(n_sing):
             cases.append(make_singular(rng, nprng, t, nmax))
+        for _ in range(ctx.n(10, 120)):
+            v = int_variant(gen_case(rng, nprng, t, nmax), rng, nprng)
+            if v is not None:
+                cases.append(v)
     for _ in range(ctx.n(10, 100)):
         cases.append(make_indefinite(rng, nprng, nmax))
 
